@@ -394,6 +394,24 @@ pub fn gen(ctx: &mut Ctx) {
             }
         }
     }
+    if si == 0 {
+        // well-formed v4 signature packets WITHOUT any sub-packet (no Issuer, no creation time) of every algorithm family, under
+        // every signature tag, alone (no digests recorded: the verifiers are reached) — the `key_ids.is_empty()` arm of the real
+        // `pgp::Verifier::verify` and the no-issuer arm of `signature_key_ids`
+        let lead = gen_lead(&mut Rng::new(13), false);
+        for alg in [1u8, 3, 17, 19, 22, 27, 0, 200] {
+            let pkt = crate::c10::crafted_sig_packet(alg);
+            for tag in [268u32, 267, 1002, 278] {
+                let mut s = GHeader::new();
+                if tag == 278 {
+                    s.push(tag, 8, &TData::Strs(vec![crate::c02::b64_text(&pkt)]));
+                } else {
+                    s.push(tag, 7, &TData::Bytes(pkt.clone()));
+                }
+                ctx.req(&format!("hostile {}", hx(&assemble(&lead, &s, 0, &GHeader::new(), &[]))));
+            }
+        }
+    }
     if si == 1 % sn {
         // gap G3: blobs that are a SEQUENCE of packets around real signatures (junk / garbage-in-a-frame / second signature /
         // trailing packets or unframed bytes / re-framed with every length format): the framing itself, and the whole read
